@@ -16,6 +16,7 @@ for key in keys:
         print("!!", key, type(e).__name__, e)
         if "-v" in sys.argv: traceback.print_exc()
         continue
+    if getattr(v, "vacuous", False): print("!! VACUOUS", key)
     print("==", key, "%d obligations, %.2fs symexec" % (len(obs), time.time() - t0))
     for ob in obs:
         r = check(ob, v.axioms(), 10000)
